@@ -109,6 +109,12 @@ class Evaluator:
         if base == ("param", "self") and ("self." + e.attr) in env:
             return env["self." + e.attr]
         if base[0] == "ref":
+            # attribute of a module-level *variable* of the package stays an attribute access
+            # (`_stack.add`), everything else (modules, classes, stdlib objects) folds into a dotted name
+            mn, _, nm = base[1].rpartition(".")
+            mod = self.prog.modules.get(mn)
+            if mod is not None and nm in mod.assigns and nm not in mod.functions and nm not in mod.classes:
+                return T.attr(base, e.attr)
             return T.ref(self.prog.canonical(f"{base[1]}.{e.attr}"))
         return T.attr(base, e.attr)
 
